@@ -174,6 +174,7 @@ Proof.
   - inversion E; subst. unfold validate_and_handle, reset_buf.
     destruct ((vst (validate_sync s ok epos true) =? 1) && negb keep); [|apply cfg_validate_sync].
     destruct ((len [] <? 0) || (0 <? 0)); cbn [fst]; simp; apply cfg_validate_sync.
+  - unfold hist_step, install_menu in E. apply cfg_gtc in E. exact E.
 Qed.
 
 Lemma cfg_run ls : forall s, cfg (run s ls) = cfg s.
